@@ -15,3 +15,15 @@ func (m *Storage) VerifAdvance(d time.Duration) {
 		}
 	}
 }
+
+// VerifMuTryLock / VerifMuUnlock: is some method inside a critical section of Storage.mu right now?
+// (TryLock fails while a CleanupExpired sweep holds the mutex, read or write.)
+func (m *Storage) VerifMuTryLock() bool { return m.mu.TryLock() }
+func (m *Storage) VerifMuUnlock()       { m.mu.Unlock() }
+
+// VerifLen is the number of physical entries (live + lapsed garbage).
+func (m *Storage) VerifLen() int {
+	m.mu.RLock()
+	defer m.mu.RUnlock()
+	return len(m.data)
+}
